@@ -82,7 +82,7 @@ func (r *Runner) header() {
 	c := r.cfg
 	fmt.Fprintf(r.out, "P %d %d %d %s %s %d %d %d %d %d %d\n", c.MaxTimeout, c.Multiple, c.MinDeposit, scaled(c.Tax), scaled(c.Slash),
 		int64(c.Arb), int64(c.Compl), r.a.svcAtom[modSvc], cbModAtom, height0, time0.UnixNano())
-	for _, at := range r.a.addrAtomsSorted() {
+	for _, at := range r.a.allAddrAtomsSorted() {
 		fmt.Fprintf(r.out, "A %d %x\n", at, r.a.addrBytes[at])
 	}
 	for _, f := range h.Funding {
